@@ -1,16 +1,18 @@
 // Package c09: no profile content, option value or typed command crashes pprof.
 //
 // Families (all exhaustive over their menus):
-//   A  odd-but-valid profiles (one odd attribute at a time; pairs in thorough),
-//      delivered as bytes through the parser, x every report command;
-//   B  a rich profile x every option x its value menu (out-of-range numbers,
-//      broken regexps, ranges, unknown units, empty values) x every command
-//      (pairs of options in thorough);
-//   C  list / weblist / disasm against a fake object tool answering from a menu
-//      (every answer sequence with <= 1 (2) non-default answers);
-//   D  interactive histories of <= 2 (3) lines over a command grammar plus noise,
-//      each followed by a sentinel command that must still answer;
-//   E  every web handler x a query-string menu, then a sentinel request.
+//
+//	A  odd-but-valid profiles (one odd attribute at a time; pairs in thorough),
+//	   delivered as bytes through the parser, x every report command;
+//	B  a rich profile x every option x its value menu (out-of-range numbers,
+//	   broken regexps, ranges, unknown units, empty values) x every command
+//	   (pairs of options in thorough);
+//	C  list / weblist / disasm against a fake object tool answering from a menu
+//	   (every answer sequence with <= 1 (2) non-default answers);
+//	D  interactive histories of <= 2 (3) lines over a command grammar plus noise,
+//	   each followed by a sentinel command that must still answer;
+//	E  every web handler x a query-string menu, then a sentinel request.
+//
 // Oracle: the outcome is output or an error; no panic (also none in goroutines
 // pprof starts itself: each case is journalled so that a dying worker is
 // attributed to it), and the session stays usable.
@@ -34,7 +36,9 @@ import (
 func init() { reg.Register("C09", Run) }
 
 func richAP() *ap.AP {
-	ln := func(fn, file string, line int64) ap.Line { return ap.Line{Func: fn, Sys: fn + "_sys", File: file, Line: line, Start: 1} }
+	ln := func(fn, file string, line int64) ap.Line {
+		return ap.Line{Func: fn, Sys: fn + "_sys", File: file, Line: line, Start: 1}
+	}
 	L := func(m int, addr uint64, lines ...ap.Line) ap.Loc { return ap.Loc{Map: m, Addr: addr, Lines: lines} }
 	a := &ap.AP{Types: []ap.VT{{Type: "n", Unit: "count"}, {Type: "t", Unit: "nanoseconds"}}, Maps: enum.Maps2, PeriodType: &ap.VT{Type: "t", Unit: "nanoseconds"}, Period: 10,
 		Comments: []string{"c1"}, DefaultSampleType: "t"}
@@ -122,7 +126,9 @@ func odds() []odd {
 		add("numunit="+u, func(p *profile.Profile) { p.Sample[0].NumUnit = map[string][]string{"bytes": {u}} })
 		add("periodunit="+u, func(p *profile.Profile) { p.PeriodType.Unit = u })
 	}
-	add("label-many-values", func(p *profile.Profile) { p.Sample[0].Label = map[string][]string{"k": {"", "a", "a", strings.Repeat("x", 1000)}} })
+	add("label-many-values", func(p *profile.Profile) {
+		p.Sample[0].Label = map[string][]string{"k": {"", "a", "a", strings.Repeat("x", 1000)}}
+	})
 	add("no-period-type", func(p *profile.Profile) { p.PeriodType = nil })
 	add("default-sample-type-unknown", func(p *profile.Profile) { p.DefaultSampleType = "nope" })
 	add("dropframes=(", func(p *profile.Profile) { p.DropFrames = "(" })
@@ -392,7 +398,7 @@ func (t *tool) Disasm(file string, start, end uint64, intelSyntax bool) ([]plugi
 	return []plugin.Inst{{Addr: start, Text: "push", Function: "a", File: "/src/a.go", Line: 1}, {Addr: start + 0x10, Text: "call", Function: "a", File: "/src/a.go", Line: 2}}, nil
 }
 
-func (f *toolFile) Name() string                        { return f.name }
+func (f *toolFile) Name() string { return f.name }
 func (f *toolFile) ObjAddr(addr uint64) (uint64, error) {
 	switch f.t.next(3) {
 	case 1:
